@@ -13,6 +13,22 @@
    Every theorem is about the current code ([d23 = false]); C19_D23_refuted is
    about the code before the repair.
 
+   Fourth audit (fix 517e7a0: `add_files` reads each canonical directory once):
+   the mirror follows the fix ([add_files_once]).  The theorems that speak
+   about the set [named] of files the command line stands for carry the
+   premise [dirs_revisited .. = false] — no named directory was met twice while
+   the arguments were expanded (then the fix changes nothing:
+   C19_fix_changes_nothing_without_revisit).  The premise is a boolean of the
+   mirror, printed by the driver for every project; where it is false (a
+   directory linked back to itself or a parent) these theorems are silent and
+   the premise-free ones remain: every user input is a named file and every
+   non-directory argument is a user input (C19_user_set_sound), every file read
+   is reachable from a named one (C19_reads_only_reachable), each file once,
+   termination, located include errors, every include served.  That skipping a
+   directory already read loses no file needs a coherence property of the file
+   system (two spellings of a directory list the same entries) that a finite
+   table cannot state: open, checked by the oracle on every project.
+
    The last group composes this model with Model.Runner (C03's mirror of
    cli/src/main.rs and analysis_runner.rs) through
    Model.IncludesRunner.file_library_user_inputs (FileLibrary::add_file):
@@ -112,6 +128,7 @@ Theorem C19_reads_exactly_reachable :
          (ext_circom starts_dot has_sep : path -> bool) (content : path -> file_content path),
     (forall p c, canon p = Some c -> canon c = Some c) ->
     forall (dfuel fuel : nat) (paths libs : list path) (s : parse_state),
+      dirs_revisited canon is_dir read_dir join ext_circom dfuel paths libs = false ->
       parse_files canon is_dir is_file read_dir join parent file_name ext_circom starts_dot has_sep content
                   false dfuel fuel paths libs = Ok s ->
       forall c : path,
@@ -161,6 +178,7 @@ Theorem C19_user_set_is_argv_files :
          (ext_circom : path -> bool),
     (forall p c, canon p = Some c -> canon c = Some c) ->
     forall (dfuel : nat) (paths libs : list path) (st : file_stack) (reps : list report),
+      dirs_revisited canon is_dir read_dir join ext_circom dfuel paths libs = false ->
       new canon is_dir read_dir join ext_circom dfuel paths libs [] = Ok (st, reps) ->
       forall c : path,
         is_user_input st c = true <-> named canon is_dir read_dir join ext_circom paths c.
@@ -179,6 +197,7 @@ Theorem C19_included_only_files_are_not_user_inputs :
          (ext_circom starts_dot has_sep : path -> bool) (content : path -> file_content path),
     (forall p c, canon p = Some c -> canon c = Some c) ->
     forall (dfuel fuel : nat) (paths libs : list path) (s : parse_state),
+      dirs_revisited canon is_dir read_dir join ext_circom dfuel paths libs = false ->
       parse_files canon is_dir is_file read_dir join parent file_name ext_circom starts_dot has_sep content
                   false dfuel fuel paths libs = Ok s ->
       (forall c : path,
@@ -287,6 +306,7 @@ Theorem C19_named_file_is_user_input :
          (ext_circom starts_dot has_sep : path -> bool) (content : path -> file_content path),
     (forall p c, canon p = Some c -> canon c = Some c) ->
     forall (dfuel fuel : nat) (paths libs : list path) (s : parse_state) (p c : path),
+      dirs_revisited canon is_dir read_dir join ext_circom dfuel paths libs = false ->
       parse_files canon is_dir is_file read_dir join parent file_name ext_circom starts_dot has_sep content
                   false dfuel fuel paths libs = Ok s ->
       p ∈ paths -> is_dir p = false -> canon p = Some c ->
@@ -312,6 +332,8 @@ Theorem C19_user_inputs_independent_of_argument_order :
     (forall p c, canon p = Some c -> canon c = Some c) ->
     forall (dfuel fuel dfuel' fuel' : nat) (paths paths' libs : list path) (s s' : parse_state),
       Permutation paths paths' ->
+      dirs_revisited canon is_dir read_dir join ext_circom dfuel paths libs = false ->
+      dirs_revisited canon is_dir read_dir join ext_circom dfuel' paths' libs = false ->
       parse_files canon is_dir is_file read_dir join parent file_name ext_circom starts_dot has_sep content
                   false dfuel fuel paths libs = Ok s ->
       parse_files canon is_dir is_file read_dir join parent file_name ext_circom starts_dot has_sep content
@@ -332,6 +354,7 @@ Theorem C19_file_library_characterised :
          (ext_circom starts_dot has_sep : path -> bool) (content : path -> file_content path),
     (forall p c, canon p = Some c -> canon c = Some c) ->
     forall (dfuel fuel : nat) (paths libs : list path) (s : parse_state),
+      dirs_revisited canon is_dir read_dir join ext_circom dfuel paths libs = false ->
       parse_files canon is_dir is_file read_dir join parent file_name ext_circom starts_dot has_sep content
                   false dfuel fuel paths libs = Ok s ->
       forall (f : path) (u : bool),
@@ -360,6 +383,7 @@ Theorem C19_included_only_report_never_displayed :
          (ext_circom starts_dot has_sep : path -> bool) (content : path -> file_content path),
     (forall p c, canon p = Some c -> canon c = Some c) ->
     forall (dfuel fuel : nat) (paths libs : list path) (s : parse_state) (r : Runner.report),
+      dirs_revisited canon is_dir read_dir join ext_circom dfuel paths libs = false ->
       parse_files canon is_dir is_file read_dir join parent file_name ext_circom starts_dot has_sep content
                   false dfuel fuel paths libs = Ok s ->
       Runner.r_pfiles r <> [] ->
@@ -389,6 +413,7 @@ Theorem C19_named_file_report_passes_file_filter :
     (forall p c, canon p = Some c -> canon c = Some c) ->
     forall (dfuel fuel : nat) (paths libs : list path) (s : parse_state) (r : Runner.report)
            (i : nat) (f : path) (u : bool),
+      dirs_revisited canon is_dir read_dir join ext_circom dfuel paths libs = false ->
       parse_files canon is_dir is_file read_dir join parent file_name ext_circom starts_dot has_sep content
                   false dfuel fuel paths libs = Ok s ->
       In (Z.of_nat i) (Runner.r_pfiles r) -> ps_files s !! i = Some (f, u) ->
@@ -409,6 +434,7 @@ Theorem C19_displayed_findings_come_from_named_files :
     (forall p c, canon p = Some c -> canon c = Some c) ->
     forall (dfuel fuel : nat) (paths libs : list path) (s : parse_state)
            (p : Runner.project) (o : Runner.opts) (order : list Runner.key) (r : Runner.report),
+      dirs_revisited canon is_dir read_dir join ext_circom dfuel paths libs = false ->
       parse_files canon is_dir is_file read_dir join parent file_name ext_circom starts_dot has_sep content
                   false dfuel fuel paths libs = Ok s ->
       Runner.p_user p = file_library_user_inputs (ps_files s) ->
@@ -425,6 +451,72 @@ Theorem C19_displayed_findings_come_from_named_files :
          named canon is_dir read_dir join ext_circom paths f).
 Proof. exact @displayed_findings_come_from_named_files. Qed.
 Print Assumptions C19_displayed_findings_come_from_named_files.
+
+(* ------------------------------------------------------------------------ *)
+(* fourth audit: the visited-directory set of fix 517e7a0                     *)
+(* ------------------------------------------------------------------------ *)
+
+(* when no directory was met twice the repaired FileStack::new computes what
+   the code before the fix computed ([new_all]: every spelling expanded) *)
+Theorem C19_fix_changes_nothing_without_revisit :
+  forall (path : Type) (EqDecision0 : EqDecision path)
+         (canon : path -> option path) (is_dir : path -> bool)
+         (read_dir : path -> option (list path)) (join : path -> path -> path)
+         (ext_circom : path -> bool)
+         (fuel : nat) (paths libs : list path) (st : file_stack) (reps : list report),
+    new canon is_dir read_dir join ext_circom fuel paths libs [] = Ok (st, reps) ->
+    dirs_revisited canon is_dir read_dir join ext_circom fuel paths libs = false ->
+    new_all canon is_dir read_dir join ext_circom fuel paths libs [] = Ok (st, reps).
+Proof. exact @new_is_new_all. Qed.
+Print Assumptions C19_fix_changes_nothing_without_revisit.
+
+(* without the premise: a user input is a file the command line names, and an
+   argument that is not a directory is a user input *)
+Theorem C19_user_set_sound :
+  forall (path : Type) (EqDecision0 : EqDecision path)
+         (canon : path -> option path) (is_dir : path -> bool)
+         (read_dir : path -> option (list path)) (join : path -> path -> path)
+         (ext_circom : path -> bool),
+    (forall p c, canon p = Some c -> canon c = Some c) ->
+    forall (dfuel : nat) (paths libs : list path) (st : file_stack) (reps : list report),
+      new canon is_dir read_dir join ext_circom dfuel paths libs [] = Ok (st, reps) ->
+      (forall c : path, is_user_input st c = true -> named canon is_dir read_dir join ext_circom paths c) /\
+      (forall p c : path, p ∈ paths -> is_dir p = false -> canon p = Some c -> is_user_input st c = true).
+Proof. exact @user_set_sound. Qed.
+Print Assumptions C19_user_set_sound.
+
+(* without the premise: every file read is reachable from a named file through
+   includes resolved by the rule, and the files read are closed under resolved includes *)
+Theorem C19_reads_only_reachable :
+  forall (path : Type) (EqDecision0 : EqDecision path)
+         (canon : path -> option path) (is_dir is_file : path -> bool)
+         (read_dir : path -> option (list path)) (join : path -> path -> path)
+         (parent : path -> path) (file_name : path -> option path)
+         (ext_circom starts_dot has_sep : path -> bool) (content : path -> file_content path),
+    (forall p c, canon p = Some c -> canon c = Some c) ->
+    forall (dfuel fuel : nat) (paths libs : list path) (s : parse_state),
+      parse_files canon is_dir is_file read_dir join parent file_name ext_circom starts_dot has_sep content
+                  false dfuel fuel paths libs = Ok s ->
+      (forall c : path,
+          c ∈ ps_read s ->
+          reachable canon is_file join parent file_name starts_dot has_sep content
+                    (named canon is_dir read_dir join ext_circom paths)
+                    (add_libraries canon is_dir ext_circom libs []).1 c) /\
+      (forall (f : path) (incs : list (path * nat * nat)) (x : path * nat * nat) (c : path),
+          f ∈ ps_read s -> content f = Parsed incs -> x ∈ incs ->
+          resolves canon is_file join parent file_name starts_dot has_sep f
+                   (add_libraries canon is_dir ext_circom libs []).1 x.1.1 (Some c) ->
+          c ∈ ps_read s).
+Proof.
+  intros path E canon is_dir is_file read_dir join parent file_name ext_circom starts_dot has_sep content Hc
+         dfuel fuel paths libs s Hp.
+  split.
+  - exact (reads_only_reachable canon is_dir is_file read_dir join parent file_name ext_circom starts_dot has_sep content
+             Hc dfuel fuel paths libs s Hp).
+  - intros f incs x c. exact (reads_closed canon is_dir is_file read_dir join parent file_name ext_circom starts_dot has_sep
+             content Hc dfuel fuel paths libs s f incs x c Hp).
+Qed.
+Print Assumptions C19_reads_only_reachable.
 
 (* the hypotheses are satisfiable and the conclusions not vacuous: main.circom
    includes lib.circom and inc.circom, lib.circom and main.circom are named in
